@@ -19,7 +19,7 @@ _G = None
 ALIASES = ["p", "q"]
 
 
-def _mk_interfaces(lab, form=0):
+def _mk_interfaces(lab, form=0, tuple_alias=False):
     """The two interfaces of Interface.tla.  `form` varies HOW the members are declared (all forms the
     documentation lists): abstract members as a bare annotation or an explicit @abstractdataset; members
     with a default as a plain function, a @dataset, a @dataset that already has a dispatch of its own
@@ -51,7 +51,9 @@ def _mk_interfaces(lab, form=0):
                 ns[m] = lab.dataset(f, dispatch=lab.Option("OTHERD"))
             else:
                 ns[m] = lab.Value(v)
-        return lab.interface("DISP")(type(name, (), ns))
+        # an alias is any hashable value: with tuple_alias the dispatch value is the pair (DISP, 7)
+        disp = lab.evaluatable_tuple(lab.Option("DISP"), lab.Value(7)) if tuple_alias else "DISP"
+        return lab.interface(disp)(type(name, (), ns))
 
     return {"I1": make("I1", ["a", "d"], ["d"], 0), "I2": make("I2", ["a", "e"], ["e"], 1)}
 
@@ -62,8 +64,10 @@ def replay_interface(lab, labels):
 
     import hashlib
 
-    form = int(hashlib.sha1(canon([{k: v for k, v in a.items() if k != "obs"} for a in labels]).encode()).hexdigest(), 16) % 4
-    I = _mk_interfaces(lab, form)
+    hsh = int(hashlib.sha1(canon([{k: v for k, v in a.items() if k != "obs"} for a in labels]).encode()).hexdigest(), 16)
+    form = hsh % 4
+    tuple_alias = (hsh // 4) % 2 == 1
+    I = _mk_interfaces(lab, form, tuple_alias)
     log = []
     for step, a in enumerate(labels):
         ns = {}
@@ -79,7 +83,11 @@ def replay_interface(lab, labels):
             ns[m] = staticmethod(f) if which == 0 else lab.dataset(f) if which == 1 else v if which == 2 else lab.Value(v)
         accepted = True
         try:
-            lab.implements(*[I[i] for i in sorted(a["ifs"])], alias=sorted(a["als"]))(type("Impl%d" % a["id"], (), ns))
+            als = sorted(a["als"])
+            if tuple_alias:
+                als = [(x, 7) for x in als]
+            # one alias is given bare (for a tuple alias: the tuple itself), several as a list
+            lab.implements(*[I[i] for i in sorted(a["ifs"])], alias=als[0] if len(als) == 1 else als)(type("Impl%d" % a["id"], (), ns))
         except TypeError:
             accepted = False
         except Exception as e:  # noqa
